@@ -378,3 +378,34 @@ pub fn property() -> Property {
         })],
     }
 }
+
+/// fuzz entry: decode bytes into a RenderCase (hand-rolled, no derive available)
+pub fn case_from_bytes(data: &[u8]) -> Option<RenderCase> {
+    let mut it = data.iter().copied();
+    let mut next = move || it.next();
+    let head = next()?;
+    let n_out = (next()? % 4) as usize;
+    let mut outcomes = vec![];
+    for _ in 0..n_out {
+        let kind = next()? % 5;
+        let n_slots = (next()? % 7) as usize;
+        let mut slots = vec![];
+        for _ in 0..n_slots {
+            let b = next()?;
+            let t = next()?;
+            slots.push(Slot { kind: b % 3, text: (t as u16) << 8, modifier: (b >> 2) % 4 });
+        }
+        let f = next()?;
+        outcomes.push(OutcomeSpec {
+            kind: if kind == 0 { 0 } else if f & 64 == 0 { 0 } else { kind },
+            slots,
+            final_newline: f & 1 == 1,
+            title: (f >> 1) % 5,
+            command: (f >> 3) % 4,
+            line_number: 1 + (next()? as u32) * if f & 128 == 0 { 1 } else { 391 },
+            ascii: f & 32 == 32,
+            cram: false,
+        });
+    }
+    Some(RenderCase { outcomes, locations: head & 1 == 1, surrounding: (head >> 1) % 8, absolute: head & 16 == 16 })
+}
